@@ -166,6 +166,12 @@ func (r *mRecorder) add(x mRec) {
 	r.mu.Unlock()
 }
 
+func (r *mRecorder) len() int {
+	r.mu.Lock()
+	defer r.mu.Unlock()
+	return len(r.rec)
+}
+
 func (r *mRecorder) snapshot() []mRec {
 	r.mu.Lock()
 	defer r.mu.Unlock()
@@ -327,17 +333,38 @@ func c03OperatorMulti(r *Run, c *Case, rng *Rng) {
 		op.TaskQueues.Stop()
 		time.Sleep(10 * time.Millisecond)
 	}()
+	// waitFor: until cond holds. Gives up (false) only when NOTHING has happened for d — no tap record, no
+	// line of a hook process: a stall, not slowness. A case that is still moving when its budget
+	// (45 s; the watchdog is 60 s) is used up is undecided: tooSlow.
+	caseStart := time.Now()
+	tooSlow := false
+	activity := func() int { return 1000*op.TaskQueues.GetMain().Length() + rec.len() + len(readLog(logFile)) }
 	waitFor := func(cond func() bool, d time.Duration) bool {
-		deadline := time.Now().Add(d)
-		for time.Now().Before(deadline) {
+		last, lastN := time.Now(), activity()
+		for i := 0; ; i++ {
 			if cond() {
 				return true
 			}
+			if i%4 == 0 {
+				if n := activity(); n != lastN {
+					last, lastN = time.Now(), n
+				}
+			}
+			if time.Since(last) > d {
+				return cond()
+			}
+			if time.Since(caseStart) > 45*time.Second {
+				tooSlow = true
+				return cond()
+			}
 			time.Sleep(2 * time.Millisecond)
 		}
-		return cond()
 	}
-	if !waitFor(func() bool { return op.TaskQueues.GetMain().Length() == 0 }, 20*time.Second) {
+	if !waitFor(func() bool { return op.TaskQueues.GetMain().Length() == 0 }, 15*time.Second) {
+		if tooSlow {
+			c.Inconcl = "start-up still making progress after 45 s (machine load): undecided"
+			return
+		}
 		hangs.Add(1)
 		c.Oracle("opflag what=startup-tasks-of-main-done ok=false")
 		return
@@ -453,13 +480,13 @@ func c03OperatorMulti(r *Run, c *Case, rng *Rng) {
 	// calls the event callback first and places the tasks afterwards; it is one goroutine, so once it
 	// has received a later (sentinel) tick the tasks of everything it received before are placed.
 	placed := func() string {
-		if !waitFor(func() bool { return received("schedule:") >= sentTicks }, 20*time.Second) {
+		if !waitFor(func() bool { return received("schedule:") >= sentTicks }, 15*time.Second) {
 			return "consumer-stuck"
 		}
-		if !waitFor(func() bool { return received("kubernetes:") >= sentKube }, 20*time.Second) {
+		if !waitFor(func() bool { return received("kubernetes:") >= sentKube }, 15*time.Second) {
 			return "kube-events-missing"
 		}
-		if !tick(sentinel) || !waitFor(func() bool { return received("schedule:") >= sentTicks }, 20*time.Second) {
+		if !tick(sentinel) || !waitFor(func() bool { return received("schedule:") >= sentTicks }, 15*time.Second) {
 			return "consumer-stuck"
 		}
 		return ""
@@ -491,7 +518,7 @@ func c03OperatorMulti(r *Run, c *Case, rng *Rng) {
 		why = placed()
 	}
 	// (when nothing is left to run and the execution has not started it never will: the oracles tell why)
-	ok = ok && why == "" && waitFor(func() bool { return blockedRuns() || allIdle("") }, 20*time.Second)
+	ok = ok && why == "" && waitFor(func() bool { return blockedRuns() || allIdle("") }, 15*time.Second)
 	blockedStarted := blockedRuns()
 	phase2 := len(rec.snapshot())
 	// 2. ticks of every crontab and new objects, in random order, while h1 hangs; the crontab of h1's
@@ -515,8 +542,8 @@ func c03OperatorMulti(r *Run, c *Case, rng *Rng) {
 	if ok && why == "" {
 		why = placed()
 	}
-	othersOK := ok && why == "" && waitFor(func() bool { return allIdle("q1") }, 20*time.Second)
-	if !othersOK {
+	othersOK := ok && why == "" && waitFor(func() bool { return allIdle("q1") }, 15*time.Second)
+	if !othersOK && !tooSlow {
 		hangs.Add(1)
 	}
 	mid := rec.snapshot()
@@ -524,11 +551,15 @@ func c03OperatorMulti(r *Run, c *Case, rng *Rng) {
 	for _, b := range blockedHook.bindings {
 		_ = os.Remove(filepath.Join(dir, "block-"+blockedHook.name+"-"+b.name))
 	}
-	drained := why == "" && waitFor(func() bool { return allIdle("") }, 20*time.Second)
-	if !drained {
+	drained := why == "" && waitFor(func() bool { return allIdle("") }, 15*time.Second)
+	if !drained && !tooSlow {
 		hangs.Add(1)
 	}
 	full := rec.snapshot()
+	if tooSlow {
+		c.Inconcl = "still making progress after 45 s (machine load): undecided"
+		return
+	}
 
 	// ---- the trace for the oracles
 	qNum := map[string]int{"main": 1}
